@@ -1219,6 +1219,11 @@ where
         self.min_index.store(0, Ordering::Release);
         self.max_index.store(0, Ordering::Release);
 
+        // A wiped log has no purge boundary either; keeping the old one would make
+        // last_log_id() / entry_term() answer for a position that no longer exists.
+        self.last_purged_index.store(0, Ordering::Release);
+        self.last_purged_term.store(0, Ordering::Release);
+
         // Clear term indexes to ensure consistency after reset
         self.term_first_index.clear();
         self.term_last_index.clear();
